@@ -380,6 +380,29 @@ package flamego
 //@ define flameWF(f *Flame) bool = f.Router != nil && dyn(f.Router) == type(*router) && routerWF(f.Router.(*router)) &&
 //@     (forall k int :: 0 <= k && k < len(f.befores) ==> f.befores[k] != nil)
 
+// A new application: request contexts come from its own createContext, the router is well-formed and empty.
+// (the logging library touches no flamego object: assumed)
+//@ trusted log.NewWithOptions(w, o) l
+//@   allocates
+//@   modifies nothing
+//@   ensures l != nil && fresh(l)
+//@ trusted (*log.Logger).StandardLog(l, opts) r
+//@   allocates
+//@   modifies nothing
+//@ iface Router.NotFound(this, handlers)
+//@   requires dyn(this) == type(*router) && this.(*router).contextCreator != nil
+//@   modifies this.(*router).notFound, handlers[*]
+//@   panics true
+//@   ensures this.(*router).notFound != nil
+//@ func NewWithLogger
+//@   props C07 C10
+//@   requires treeWF()
+//@   modifies nothing
+//@   panics true
+//@   ensures result != nil && fresh(result) && flameWF(result) && treeWF()
+//@   ensures[C10] shortcutInv(result.Router.(*router)) && shortcutAgrees(result.Router.(*router))
+//@   ensures len(result.handlers) == 0 && len(result.befores) == 0 && result.action == nil && result.urlPrefix == ""
+
 //@ func (*Flame).ServeHTTP
 //@   props C07 C05 C01
 //@   requires flameWF(f) && treeWF()
@@ -1107,6 +1130,24 @@ package flamego
 //@   loop 2 invariant forall k int :: old(r.regCount) <= k && k < r.regCount ==> len(r.regHandlers[k]) == old(ghLen(r, len(r.groups))) + len(handlers)
 //@   loop 2 invariant forall k int {r.regMethod[k]} :: 0 <= k && k < old(r.regCount) ==> r.regMethod[k] == old(r.regMethod[k])
 //@   loop 2 invariant forall k int {r.regPath[k]} :: 0 <= k && k < old(r.regCount) ==> r.regPath[k] == old(r.regPath[k])
+
+// A new router: a tree and an empty fast-path table for each of the nine methods, a not-found chain, no named route.
+// This establishes the invariants every registration and every request relies on (routerWF, and - trivially, the
+// tables being empty - shortcutInv and shortcutAgrees).
+//@ func newRouter
+//@   props C10 C07 C08
+//@   requires treeWF() && contextCreator != nil
+//@   modifies nothing
+//@   panics true
+//@   ensures dyn(result) == type(*router) && fresh(result) && routerWF(result.(*router)) && treeWF()
+//@   ensures[C10] forall m string, p string :: !(has(result.(*router).staticRoutes, m) && has(result.(*router).staticRoutes[m], p))
+//@   ensures[C10] shortcutInv(result.(*router)) && shortcutAgrees(result.(*router))
+//@   ensures len(result.(*router).groups) == 0 && !result.(*router).autoHead && result.(*router).regCount == 0
+//@   loop 0 invariant treeWF() && r != nil && fresh(r) && r.routeTrees != nil && fresh(r.routeTrees) && r.staticRoutes != nil && fresh(r.staticRoutes) && r.namedRoutes != nil && fresh(r.namedRoutes) && r.staticRoutes != r.namedRoutes
+//@   loop 0 invariant r.parser != nil && r.contextCreator == contextCreator && len(r.groups) == 0 && !r.autoHead && (forall n string :: !has(r.namedRoutes, n))
+//@   loop 0 invariant forall k int :: 0 <= k && k <= rangeindex ==> has(r.routeTrees, httpMethods[k]) && has(r.staticRoutes, httpMethods[k]) && r.staticRoutes[httpMethods[k]] != nil
+//@   loop 0 invariant forall m string :: has(r.routeTrees, m) ==> isTree(r.routeTrees[m]) && bareOK(r.routeTrees[m])
+//@   loop 0 invariant forall m string :: has(r.staticRoutes, m) ==> r.staticRoutes[m] != nil && fresh(r.staticRoutes[m]) && r.staticRoutes[m] != r.namedRoutes && (forall p string :: !has(r.staticRoutes[m], p))
 
 //@ func (*router).HandlerWrapper
 //@   props C11 C04
